@@ -41,6 +41,9 @@ func (p vPDRSpec) pdiIEs() []*ie.IE {
 		}
 	} else {
 		pdi = append(pdi, ie.NewSourceInterface(ie.SrcInterfaceCore))
+		if p.choose {
+			pdi = append(pdi, ie.NewFTEID(0x05, 0, nil, nil, 0)) // N9: the UPF chooses the core-side F-TEID too
+		}
 	}
 	if p.ueChoose {
 		pdi = append(pdi, ie.NewUEIPAddress(0x10, "", "", 0, 0)) // CHV4 only
